@@ -69,8 +69,9 @@ class SymH(object):
         self.path.assume(c)
 
     def call(self, fn, *args, **kwargs):
+        """run the function under contract: its *body* is interpreted (callee stubs apply to calls made inside)"""
         try:
-            return Outcome(self.it.call(fn, args, kwargs))
+            return Outcome(self.it.call(fn, args, kwargs, body=True))
         except (sym.EngineError, interp._Flow):
             raise
         except BaseException as e:
@@ -196,6 +197,7 @@ class NativeIt(object):
         self.H = H
         self.trace = []
         self.asm_obj = None
+        self.cfg = None
         self.path = self
 
     def get_global(self, module, name):
@@ -421,8 +423,71 @@ def _quiet(f, *a):
     f(*a)
 
 
+class NativeCase(Case):
+    """bounded stand-in (tier B): the real code is run natively on an enumerated family of inputs and each result is
+    judged by an oracle; obligations are recorded with self.ob(...)"""
+    tier = 'B'
+    native_only = True
+
+    def run_native(self, tier):
+        raise NotImplementedError
+
+    def ob(self, name, ok, inputs=None, info=None):
+        o = self._obs.get(name)
+        if o is None:
+            o = self._obs[name] = dict(name=self.name + '::' + name, paths=0, proved=0, refuted=[], unknown=[], solver_s=0.0,
+                                       backends={}, sample=None)
+        o['paths'] += 1
+        if ok:
+            o['proved'] += 1
+            o['backends']['native-oracle'] = o['backends'].get('native-oracle', 0) + 1
+            if o['sample'] is None and inputs is not None:
+                o['sample'] = repr(inputs)[:600]
+        elif len(o['refuted']) < 5:
+            o['refuted'].append(dict(inputs=inputs, info=info, confirmed=True, path=[], notes=[],
+                                     replay=dict(failed=[name], checked=[name], assume_failed=False, error=None)))
+        else:
+            o['refuted_more'] = o.get('refuted_more', 0) + 1
+
+
+def run_native_case(case, tier):
+    t0 = time.time()
+    case._obs = {}
+    crash = None
+    devnull = open(os.devnull, 'w')
+    old_out, old_err = sys.stdout, sys.stderr
+    try:
+        sys.stdout = sys.stderr = devnull
+        try:
+            case.run_native(tier)
+        finally:
+            sys.stdout, sys.stderr = old_out, old_err
+            devnull.close()
+    except BaseException as e:
+        crash = "".join(traceback.format_exception(type(e), e, e.__traceback__))[-3000:]
+    obs = []
+    evals = 0
+    for o in case._obs.values():
+        o['verdict'] = 'refuted' if o['refuted'] else ('proved' if o['paths'] else 'unknown')
+        o['confirmed'] = len(o['refuted'])
+        evals += o['paths']
+        obs.append(o)
+    fins = []
+    for f in case.functions:
+        try:
+            fins.append(interp.source_info(f))
+        except BaseException as e:
+            fins.append(dict(qualname=getattr(f, '__qualname__', str(f)), error=str(e)))
+    return dict(name=case.name, case=case.name, prop=case.prop, tier=case.tier, paths=evals, infeasible=0, errors=[], n_errors=0,
+                notes=[], solver_s=0, queries=0, obligations=obs, crash=crash, assumptions=list(case.assumptions),
+                functions=fins, seed_failures=[], seeds_run=0, cover_runs=0, cover_failures=[],
+                wall_s=round(time.time() - t0, 3))
+
+
 def run_case(case, tier='quick'):
     """explore one case symbolically, replay refutations natively; returns a json-able dict"""
+    if getattr(case, 'native_only', False):
+        return run_native_case(case, tier)
     t0 = time.time()
     stubs = case.make_stubs()
 
